@@ -321,14 +321,19 @@ Proof.
     split; [exact K1 | cbn [length]; lia].
 Qed.
 
-Lemma on_moved_sinv st f mid addr : SInv st -> SInv (on_moved st f mid addr).
+Lemma on_moved_sinv st f mid ty addr : SInv st -> SInv (on_moved st f mid ty addr).
 Proof.
   intro H. unfold on_moved.
   assert (Hm : SInv (mark_moved st mid (frag_slot f))) by (eapply SInv_same; [apply same_s_mark_moved | exact H]).
   set (stm := mark_moved st mid (frag_slot f)) in *.
   destruct (find_pool stm addr) as [p|].
   - destruct (pool_get stm p) as [st1 [s|]] eqn:Eg; destruct (pool_get_sinv _ _ _ _ Hm Eg) as (A & B & C).
-    + apply enqueue_out_sinv; [exact A|]. intros sv Hl. destruct (B s eq_refl) as (sv' & Hs & Ho). congruence.
+    + assert (Hop : forall sv, lookup s (servers st1) = Some sv -> ps_open sv = true).
+      { intros sv Hl. destruct (B s eq_refl) as (sv' & Hs & Ho). congruence. }
+      destruct (N.eqb ty RspAsk).
+      * apply enqueue_out_sinv; [apply enqueue_out_sinv; [exact A | exact Hop]|].
+        intros sv Hl. destruct (enqueue_out_open _ _ _ _ Hl) as (sv0 & Hl0 & Eo & _). rewrite Eo. apply Hop, Hl0.
+      * apply enqueue_out_sinv; [exact A | exact Hop].
     + eapply SInv_same; [apply same_s_fail_and_flush | exact A].
   - eapply SInv_same; [apply same_s_fail_and_flush | exact Hm].
 Qed.
